@@ -42,13 +42,87 @@ def jobs():
 
 
 # ---------------------------------------------------------------------------
+RUN_WALL = int(os.environ.get("GBSIM_RUN_WALL", "400"))  # seconds one isolated run may take before its process is killed
+
+
+def isolated_execute(mod, spec):
+    """Execute one run in a forked child of this (pristine) process and return its result.
+
+    Every run starts from the module state of a process that has imported the library but never executed it: state a run
+    leaves behind in the library (module-level caches, class attributes, the global generator) cannot reach the next run,
+    so a run's outcome is a function of its spec alone -- which is what makes every violation replay in a fresh interpreter.
+    Leaks *inside* one run (between the operations of a history) are what the histories of C10 / C13 / C20 look for."""
+    import pickle
+    import select
+    import signal
+
+    if os.environ.get("GBSIM_NO_ISOLATION"):
+        return mod.execute(spec)
+    r, w = os.pipe()
+    sys.stdout.flush()
+    sys.stderr.flush()
+    cpid = os.fork()
+    if cpid == 0:
+        code = 0
+        try:
+            os.close(r)
+            faulthandler.dump_traceback_later(RUN_WALL - 20, exit=False)
+            try:
+                res = mod.execute(spec)
+            except BaseException as exc:  # harness failure, never a verdict
+                res = {"harness_error": f"{type(exc).__name__}: {exc}\n{traceback.format_exc()[-1500:]}", "violations": []}
+            res.pop("ast", None)
+            try:
+                data = pickle.dumps(res)
+            except Exception:
+                data = pickle.dumps(json.loads(json.dumps(res, default=str)))
+            off = 0
+            while off < len(data):
+                off += os.write(w, data[off: off + 65536])
+        except BaseException:
+            code = 1
+        finally:
+            os._exit(code)
+    os.close(w)
+    chunks = []
+    deadline = time.time() + RUN_WALL
+    timed_out = False
+    while True:
+        left = deadline - time.time()
+        if left <= 0:
+            timed_out = True
+            break
+        ready, _, _ = select.select([r], [], [], min(left, 5.0))
+        if not ready:
+            continue
+        chunk = os.read(r, 1 << 20)
+        if not chunk:
+            break
+        chunks.append(chunk)
+    os.close(r)
+    if timed_out:
+        try:
+            os.kill(cpid, signal.SIGKILL)
+        except OSError:
+            pass
+    try:
+        os.waitpid(cpid, 0)
+    except OSError:
+        pass
+    if timed_out:
+        return {"harness_error": f"run exceeded {RUN_WALL}s wall clock and was killed", "violations": []}
+    try:
+        return pickle.loads(b"".join(chunks))
+    except Exception as exc:
+        return {"harness_error": f"run process died without a result ({exc!r})", "violations": []}
+
+
 def _worker(args):
     pid, run_seed, tier, idx = args
-    faulthandler.dump_traceback_later(170, exit=False)
     try:
         mod = prop_module(pid)
         spec = mod.spec_from_seed(run_seed, tier)
-        res = mod.execute(spec)
+        res = isolated_execute(mod, spec)
         res["spec"] = spec if (res.get("violations") or res.get("harness_error") or res.get("keep_spec")) else None
         res["idx"] = idx
         res["seed"] = run_seed
@@ -56,8 +130,6 @@ def _worker(args):
     except BaseException as exc:  # harness failure, never a verdict
         return {"idx": idx, "seed": run_seed, "harness_error": f"{type(exc).__name__}: {exc}\n{traceback.format_exc()[-1500:]}",
                 "violations": []}
-    finally:
-        faulthandler.cancel_dump_traceback_later()
 
 
 EARLY_STOP = int(os.environ.get("GBSIM_EARLY_STOP", "12"))  # runs with a new (not known-finding) violation after which the rest of the batch is skipped
@@ -183,7 +255,7 @@ def minimise(pid, mod, spec, target, budget_s=45, max_exec=300):
                 break
             n_exec += 1
             try:
-                r = mod.execute(cand)
+                r = isolated_execute(mod, cand)
             except BaseException:
                 continue
             if r.get("harness_error"):
